@@ -106,6 +106,10 @@ type PointObs struct {
 	Val   int64 `json:"v"`
 	Cnt   uint64 `json:"c"`
 	NF    bool   `json:"nf,omitempty"` // the reported value (sum / last value) is NaN or an infinity
+	BC    []uint64 `json:"bc,omitempty"`  // explicit-bucket histograms: bucket counts, boundaries, min, max
+	Bnd   []int64  `json:"bnd,omitempty"`
+	Min   int64    `json:"min,omitempty"`
+	Max   int64    `json:"max,omitempty"`
 }
 
 type MetricObs struct {
@@ -579,22 +583,22 @@ func extract(rm *metricdata.ResourceMetrics, res *Result) []MetricObs {
 			case metricdata.Sum[int64]:
 				mo.Meta = monoFlag(d.IsMonotonic) + deltaFlag(d.Temporality)
 				for _, p := range d.DataPoints {
-					mo.Points = append(mo.Points, PointObs{canonSet(p.Attributes), p.Value, 0, false})
+					mo.Points = append(mo.Points, PointObs{Attrs: canonSet(p.Attributes), Val: p.Value, Cnt: 0, NF: false})
 				}
 			case metricdata.Sum[float64]:
 				mo.Meta = monoFlag(d.IsMonotonic) + deltaFlag(d.Temporality)
 				for _, p := range d.DataPoints {
-					mo.Points = append(mo.Points, PointObs{canonSet(p.Attributes), f2i(p.Value, res), 0, nonFinite(p.Value)})
+					mo.Points = append(mo.Points, PointObs{Attrs: canonSet(p.Attributes), Val: f2i(p.Value, res), Cnt: 0, NF: nonFinite(p.Value)})
 				}
 			case metricdata.Gauge[int64]:
 				mo.Meta = 1
 				for _, p := range d.DataPoints {
-					mo.Points = append(mo.Points, PointObs{canonSet(p.Attributes), p.Value, 0, false})
+					mo.Points = append(mo.Points, PointObs{Attrs: canonSet(p.Attributes), Val: p.Value, Cnt: 0, NF: false})
 				}
 			case metricdata.Gauge[float64]:
 				mo.Meta = 1
 				for _, p := range d.DataPoints {
-					mo.Points = append(mo.Points, PointObs{canonSet(p.Attributes), f2i(p.Value, res), 0, nonFinite(p.Value)})
+					mo.Points = append(mo.Points, PointObs{Attrs: canonSet(p.Attributes), Val: f2i(p.Value, res), Cnt: 0, NF: nonFinite(p.Value)})
 				}
 			case metricdata.Histogram[int64]:
 				mo.Meta = 2 + deltaFlag(d.Temporality)
@@ -606,7 +610,17 @@ func extract(rm *metricdata.ResourceMetrics, res *Result) []MetricObs {
 					if bc != p.Count {
 						res.Odd = fmt.Sprintf("histogram bucket counts add up to %d, Count is %d", bc, p.Count)
 					}
-					mo.Points = append(mo.Points, PointObs{canonSet(p.Attributes), p.Sum, p.Count, false})
+					po := PointObs{Attrs: canonSet(p.Attributes), Val: p.Sum, Cnt: p.Count, BC: append([]uint64{}, p.BucketCounts...)}
+					for _, b := range p.Bounds {
+						po.Bnd = append(po.Bnd, f2i(b, res))
+					}
+					if mn, ok := p.Min.Value(); ok {
+						po.Min = mn
+					}
+					if mx, ok := p.Max.Value(); ok {
+						po.Max = mx
+					}
+					mo.Points = append(mo.Points, po)
 				}
 			case metricdata.Histogram[float64]:
 				mo.Meta = 2 + deltaFlag(d.Temporality)
@@ -618,17 +632,27 @@ func extract(rm *metricdata.ResourceMetrics, res *Result) []MetricObs {
 					if bc != p.Count {
 						res.Odd = fmt.Sprintf("histogram bucket counts add up to %d, Count is %d", bc, p.Count)
 					}
-					mo.Points = append(mo.Points, PointObs{canonSet(p.Attributes), f2i(p.Sum, res), p.Count, nonFinite(p.Sum)})
+					po := PointObs{Attrs: canonSet(p.Attributes), Val: f2i(p.Sum, res), Cnt: p.Count, NF: nonFinite(p.Sum), BC: append([]uint64{}, p.BucketCounts...)}
+					for _, b := range p.Bounds {
+						po.Bnd = append(po.Bnd, f2i(b, res))
+					}
+					if mn, ok := p.Min.Value(); ok {
+						po.Min = f2i(mn, res) // a non-finite min / max only occurs on points judged at count level
+					}
+					if mx, ok := p.Max.Value(); ok {
+						po.Max = f2i(mx, res)
+					}
+					mo.Points = append(mo.Points, po)
 				}
 			case metricdata.ExponentialHistogram[int64]:
 				mo.Meta = 3 + deltaFlag(d.Temporality)
 				for _, p := range d.DataPoints {
-					mo.Points = append(mo.Points, PointObs{canonSet(p.Attributes), p.Sum, p.Count, false})
+					mo.Points = append(mo.Points, PointObs{Attrs: canonSet(p.Attributes), Val: p.Sum, Cnt: p.Count, NF: false})
 				}
 			case metricdata.ExponentialHistogram[float64]:
 				mo.Meta = 3 + deltaFlag(d.Temporality)
 				for _, p := range d.DataPoints {
-					mo.Points = append(mo.Points, PointObs{canonSet(p.Attributes), f2i(p.Sum, res), p.Count, nonFinite(p.Sum)})
+					mo.Points = append(mo.Points, PointObs{Attrs: canonSet(p.Attributes), Val: f2i(p.Sum, res), Cnt: p.Count, NF: nonFinite(p.Sum)})
 				}
 			default:
 				res.Odd = fmt.Sprintf("unknown metric data type %T", md.Data)
@@ -1538,7 +1562,28 @@ func selOf(rsel []int, kind int) int {
 }
 
 func caseTerm(sc Scenario, res Result, tmask uint64, rsel []int, observed [][]MetricObs) string {
-	var views, insts, pool, evs, obs []string
+	var views, insts, pool, evs, obs, hobs []string
+	for _, ms := range observed { // explicit-bucket histograms in detail
+		var hms []string
+		for _, m := range ms {
+			if m.Meta%10 != 2 || len(m.Points) == 0 {
+				continue
+			}
+			var bnd, pts []string
+			for _, b := range m.Points[0].Bnd {
+				bnd = append(bnd, vgen.Z(b))
+			}
+			for _, p := range m.Points {
+				var bc []string
+				for _, c := range p.BC {
+					bc = append(bc, vgen.N(c))
+				}
+				pts = append(pts, vgen.Pair(setCoq(p.Attrs), vgen.Pair(vgen.Pair(vgen.List(bc), vgen.Z(p.Min)), vgen.Z(p.Max))))
+			}
+			hms = append(hms, vgen.Pair(vgen.Pair(vgen.Pair(vgen.HxS(m.Name), vgen.N(uint64(m.Meta))), vgen.List(bnd)), vgen.List(pts)))
+		}
+		hobs = append(hobs, vgen.List(hms))
+	}
 	for _, v := range sc.Views {
 		f := vgen.None
 		if v.Filter {
@@ -1573,7 +1618,7 @@ func caseTerm(sc Scenario, res Result, tmask uint64, rsel []int, observed [][]Me
 		obs = append(obs, vgen.List(mts))
 	}
 	return vgen.App("CScen", vgen.N(uint64(sc.L)), vgen.N(tmask), vgen.List(views), vgen.List(insts),
-		vgen.List(pool), vgen.List(evs), vgen.List(obs))
+		vgen.List(pool), vgen.List(evs), vgen.List(obs), vgen.List(hobs))
 }
 
 // ---- parent ----
